@@ -790,6 +790,17 @@ pub fn avg_regions(k: usize) -> Vec<(String, u32, u32, String)> {
             (s("chr2"), 0, 8, s("x y  z")),
             (s("chr1"), 8, 16, s("plain")),
         ],
+        // 3 000 regions (chunks of the parallel path hold hundreds of rows each, so chunks are being
+        // read while others are set up), some reaching beyond the 200-base chromosomes
+        4 => {
+            let mut v = vec![];
+            for n in 0..3000u32 {
+                let size = [1u32, 2, 4, 8, 16][(n % 5) as usize];
+                let st = (n * 7) % 196;
+                v.push((s(if n % 3 == 2 { "chr2" } else { "chr1" }), st, st + size, format!("m{}", n)));
+            }
+            v
+        }
         _ => {
             let mut v = vec![];
             let mut n = 0;
@@ -810,6 +821,8 @@ pub fn avg_regions(k: usize) -> Vec<(String, u32, u32, String)> {
 
 pub fn avg_tool_cases(quick: bool) -> Vec<AvgTool> {
     let mut v = vec![];
+    v.push(AvgTool { file: 0, regions: 4, namecol: None, min_max: true, final_newline: true });
+    v.push(AvgTool { file: 0, regions: 4, namecol: Some(s("interval")), min_max: false, final_newline: false });
     for file in 0..2 {
         for regions in 0..4 {
             for namecol in [None, Some("5"), Some("interval"), Some("none")] {
@@ -956,7 +969,7 @@ pub fn c17_tool(t: &AvgTool, out: &mut Outcome) {
 pub fn tool_space() -> serde_json::Value {
     json!({
         "merge_tool": "1-3 inputs written by the independent encoder (chromosome length 120000; values at base 0, across 50,000 and 100,000, cancelling, explicit zeros, a chromosome missing from some inputs) x clip x adjust x threshold x output names {out.bw, out.bigWig, out.bedGraph, OUT.BW, --output-type bigwig / BedGraph} x flag styles x input styles {-b each, -l list, kent positional, kent -inList}; plus 982 generated inputs (more than the 976 the tool keeps open: merged in chunks) whose chunk sums are negative while the total is positive",
-        "average_tool": "2 bigWigs x 4 region lists (1, 3, 68 regions, names with blanks / empty) x name modes x --min-max x final newline x -t 1..16 (byte-identical), plus bigwigvaluesoverbed",
+        "average_tool": "2 bigWigs x 5 region lists (1, 3, 68, 3000 regions, some reaching beyond the chromosome end, names with blanks / empty) x name modes x --min-max x final newline x -t 1..16 (byte-identical), plus bigwigvaluesoverbed",
         "python_binding": "average_over_bed: 2 bigWigs x 4 region lists x names {absent, True, False, 0, 1, 4, 5} x stats {absent, all, All, mean, min, [sum,bases], [max,min,mean0,size], [bases]}",
     })
 }
@@ -970,9 +983,15 @@ pub fn c19_tool(extra: usize, supplied: Option<(String, usize)>, threads: usize,
 
 /// `stdin`: the spelling of "read the BED from standard input" to use instead of the file name.
 pub fn c19_tool_from(extra: usize, supplied: Option<(String, usize)>, threads: usize, stdin: Option<&str>, out: &mut Outcome) {
+    c19_tool_wide(extra, 0, supplied, threads, stdin, out)
+}
+
+/// `width` > 0 pads every extra column to that many bytes (first lines longer than the 8 KiB
+/// buffers between the input and the schema generator).
+pub fn c19_tool_wide(extra: usize, width: usize, supplied: Option<(String, usize)>, threads: usize, stdin: Option<&str>, out: &mut Outcome) {
     let wd = workdir();
     let dir = wd.path();
-    let rest: Vec<String> = (0..extra).map(|i| format!("v{}", i)).collect();
+    let rest: Vec<String> = (0..extra).map(|i| format!("v{}{}", i, "w".repeat(width.saturating_sub(3)))).collect();
     let mut bed = String::new();
     for (i, (c, a, b)) in [("chr1", 1u32, 9u32), ("chr1", 5, 20), ("chr2", 0, 4)].iter().enumerate() {
         bed.push_str(&format!("{}\t{}\t{}", c, a, b));
@@ -987,6 +1006,10 @@ pub fn c19_tool_from(extra: usize, supplied: Option<(String, usize)>, threads: u
     let mut tags = vec![if supplied.is_some() { s("supplied_schema") } else { s("generated_schema") }];
     if stdin.is_some() {
         tags.push(s("bed_from_stdin"));
+    }
+    if width > 0 {
+        tags.push(s("wide_columns"));
+        out.count("tool_schema_runs_first_line_over_8k", (bed.lines().next().map(|l| l.len()).unwrap_or(0) > 8192) as u64);
     }
     if let Some((text, _)) = &supplied {
         std::fs::write(dir.join("schema.as"), text).unwrap();
